@@ -697,4 +697,6 @@ if only in ("all", "seq"):
 if only in ("all", "direct"):
     direct_sweep()
 
+# concise failing inputs of the exhaustive sweep first, then those met inside sequences
+fails.sort(key=lambda f: 1 if f.get("program") else 0)
 json.dump(dict(cases=cases, meta=meta, direct_fails=fails, counts=counts, stats=stats), sys.stdout)
